@@ -38,10 +38,58 @@ def part(ctx, hdir, test, transcript, env, what):
     return cases
 
 
+def fail_closed_in_controller(ctx):
+    """the seller controller on bad payloads (C08's harness and model): a purchase or a destination update whose payload is
+    empty / does not decrypt / is not hex / is not a URL must leave the contract without a destination, never with another one"""
+    exe = L.build_harness(ctx, "contract")
+    if not exe:
+        return 0
+    rc, out = L.run_harness(ctx, exe, "TestVerifSeller$", env={"VERIF_N": 80 if ctx.tier == "quick" else 1500, "VERIF_FLUSH": 1}, timeout=1700)
+    if rc != 0:
+        ctx.tie_failures.append("seller harness run failed (rc=%d): %s" % (rc, out[-300:]))
+        return 0
+    impl = "%s/seller.impl.txt" % ctx.out
+    proj = impl + ".ctr.txt"
+    with open(proj, "w") as f:
+        for l in open(impl, errors="replace"):
+            if l.startswith("< ") and not l.startswith("< ctr"):
+                continue
+            f.write(l)
+    model = proj + ".model.txt"
+    rc, err = L.drv("model", "c08", proj, model)
+    if rc != 0:
+        ctx.tie_failures.append("driver model c08 failed: " + err[-200:])
+        return 0
+    amb, cur = set(), None
+    for l in open(model, errors="replace"):
+        if l.startswith("# case"):
+            cur = l.rstrip("\n")
+        elif "AMBIGUOUS" in l:
+            amb.add(cur)
+    n, done = 0, set()
+    for d in L.diff_cases(proj, model):
+        if d["header"] in amb:
+            continue
+        op = L.last_op_before(d["lines"], d["first"]).split()
+        kind = next((t[8:] for t in op if t.startswith("payload=")), "")
+        if op[1:2] and op[1] in ("purchased", "destupdate") and kind in ("empty", "garbage", "nothex", "noturl"):
+            sig = "c18:failclosed:%s:%s" % (op[1], kind)
+            if sig in done:
+                continue
+            done.add(sig)
+            ops = [l for l in d["lines"][:d["first"] + 1] if l.startswith("> ")]
+            L.violation(ctx, sig, "after %s (a payload that is %s) the controller says %r, fail-closed model %r" % (" ".join(op[1:4]), kind, d["impl"], d["other"]),
+                        {"clause": sig, "case": d["header"], "ops": ops, "how_to_replay": "bin/check C08 --replay <this file>"})
+    for h, lines in L.parse_cases(impl):
+        n += sum(1 for l in lines if l.startswith("> ") and any(k in l for k in ("payload=empty", "payload=garbage", "payload=nothex", "payload=noturl")))
+    return n
+
+
 def run(ctx):
     ctx.trusted_base += [
         "tools/gofacts: GetSanitized regenerated as straight-line assignments (struct-level copies expanded to leaf fields; anything else makes the translator fail), the Config field list, where the whole configuration value flows in cmd/main.go, the HTTP handler's Sanitizable interface",
         "correspondence: real Config.GetSanitized on marker-filled configurations vs the regenerated statements (validates the translator), incl. what %+v and JSON print; real EncryptedTerms.Decrypt/DecryptPoolDest on valid / corrupted / truncated / foreign ciphertexts vs Model.Secrets.decryptDest",
+        "fail closed where it matters: the seller world of C08 (real ContractFactory / ControllerSeller / watcher over the fake chain, payloads really encrypted) is run here too; a purchase or destination update with an empty / undecryptable / non-hex / non-URL payload is compared with Model/Seller.lean (no destination, not fulfilling, error set)",
         "assumed, sampled only: go-ethereum ECIES rejects corrupted, truncated and foreign ciphertexts (cryptographic strength is outside the proof: partial)",
     ]
     ctx.assumptions += ["ECIES integrity (MAC) of go-ethereum/crypto/ecies", "url.Parse is a function of the plaintext"]
@@ -51,6 +99,7 @@ def run(ctx):
         return
     cases = part(ctx, "config", "TestVerifC18Sanitize$", "c18cfg.impl.txt", {"VERIF_N": 200 if ctx.tier == "quick" else 5000}, "sanitised configuration")
     cases += part(ctx, "hr", "TestVerifC18Decrypt$", "c18dec.impl.txt", {"VERIF_N": 12 if ctx.tier == "quick" else 40}, "encrypted destination")
+    bad_payload_events = fail_closed_in_controller(ctx)
     kinds = {}
     for h, lines in cases:
         for l in lines:
@@ -61,11 +110,18 @@ def run(ctx):
     ctx.coverage.update({
         "evaluations": sum(kinds.values()), "distinct_nontrivial": sum(v for k, v in kinds.items() if k not in ("empty",)),
         "rule": "sanitisation: seeded configurations with a distinct marker in ~75% of the leaf fields (all kinds); decryption: seeded key pairs (a third with a leading zero nibble) x URLs; per ciphertext: valid, empty, foreign key, non-hex, odd length, every (thorough) or every 7th (quick) truncation and single-byte corruption with 3 xor masks, a valid ciphertext of a non-URL. Every op is non-trivial except the empty payload; ops are distinct by construction (fresh randomness per ciphertext)",
-        "op_kinds": kinds, "traces_validated_against_impl": len(cases),
+        "op_kinds": kinds, "traces_validated_against_impl": len(cases), "bad_payload_events_through_the_seller_controller": bad_payload_events,
     })
     ctx.samples += [{"case": h, "lines": lines[:6]} for h, lines in cases[1:3]]
 
 
 def replay(ctx, path):
+    import json, importlib.util
+    rp = json.load(open(path))
+    if any(o.startswith("> world") or o.startswith("world") for o in rp.get("ops", [])):   # a seller-world history
+        spec = importlib.util.spec_from_file_location("chk_C08", "%s/checks/C08.py" % L.VERIF)
+        mod = importlib.util.module_from_spec(spec)
+        spec.loader.exec_module(mod)
+        return mod.replay(ctx, path)
     print("rerun bin/check C18 with the same VERIF_SEED; the failing op and its case are in the replay file")
     return 0
